@@ -47,10 +47,19 @@ def probes(rnd):
         ("distinct-subq", "SELECT DISTINCT (SELECT x FROM items) AS v, * FROM t"),
         ("fuse", "SELECT FUSE(o) AS f, a FROM t"),
         ("dual", "SELECT 1 + 1 AS v, 'x' AS s FROM dual"),
+        ("subq-dual-star", "SELECT a, (SELECT * FROM dual) AS s FROM t"),
+        ("subq-derived-dual", "SELECT a, (SELECT * FROM (SELECT * FROM dual) z) AS s FROM t"),
+        ("subq-union-dual", "SELECT a, (SELECT * FROM dual UNION ALL SELECT * FROM dual) AS s FROM t"),
+        ("subq-cte-dual", "SELECT a, (WITH w AS (SELECT * FROM dual) SELECT * FROM w) AS s FROM t"),
+        ("subq-derived-items", "SELECT a, (SELECT * FROM (SELECT * FROM items) z) AS s FROM t"),
+        ("exists-derived", "SELECT a FROM t WHERE EXISTS (SELECT * FROM (SELECT * FROM items) z)"),
+        ("in-derived-dual", "SELECT a FROM t WHERE a IN (SELECT a FROM (SELECT * FROM dual) z)"),
+        ("where-subq-star", "SELECT * FROM t WHERE a IN (SELECT x FROM items)"),
+        ("join-star-subq", "SELECT *, (SELECT * FROM dual) AS d FROM t x JOIN t y ON x.a = y.a"),
     ]
     out = []
     for tag, sql in forms:
-        out.append({"doc": doc, "sql": sql, "tag": "probe:" + tag, "seq": tag not in ("group-star", "count"),
+        out.append({"doc": doc, "sql": sql, "tag": "probe:" + tag, "seq": tag not in ("group-star", "count", "join-star-subq"),
                     "wrapped": False, "pg": False, "arr": False, "consts": None, "mode": "seq", "q": None})
     return out
 
